@@ -316,15 +316,21 @@ func (w *world) opGov(op kernel.Op) {
 		r := kernel.Mod(op.Arg(2), len(w.relayers))
 		var chains, addrs []string
 		drop := kernel.Mod(op.Arg(3), len(w.chains)+1)
+		// alias: the relayer declares, for the other chains, the address another relayer also declares
+		// (an operator adding a local key while keeping the remote one); nothing forbids it
+		as := r
+		if len(op.A) > 4 && op.Arg(4)%3 == 1 {
+			as = kernel.Mod(op.Arg(4)/3, len(w.relayers))
+		}
 		for _, o := range w.chains {
 			if o.idx == c.idx || o.idx == drop {
 				continue
 			}
 			chains = append(chains, o.Cfg.Name)
-			addrs = append(addrs, w.relayers[r].Acc.String())
+			addrs = append(addrs, w.relayers[as].Acc.String())
 		}
 		content = clienttypes.NewRegisterRelayerProposal("reg", "relayer", w.relayers[r].Acc.String(), chains, addrs)
-		what = fmt.Sprintf("relayer:%d:%s", r, strings.Join(chains, ","))
+		what = fmt.Sprintf("relayer:%d:%s:%d", r, strings.Join(chains, ","), as)
 	case 2:
 		keys := sortedKeys(c.wrapped)
 		t := c.wrapped[keys[kernel.Mod(op.Arg(2), len(keys))]]
@@ -412,16 +418,20 @@ func (w *world) afterBlockGov(c *xchain) {
 		}
 		w.rec.Logf("proposal %d (%s) on %s ended %s", g.id, g.what, c.Cfg.Name, st)
 		if st == govtypes.StatusPassed && strings.HasPrefix(g.what, "relayer:") {
-			parts := strings.SplitN(g.what, ":", 3)
-			var r int
+			parts := strings.SplitN(g.what, ":", 4)
+			var r, as int
 			fmt.Sscanf(parts[1], "%d", &r)
-			set := map[string]bool{}
+			fmt.Sscanf(parts[3], "%d", &as)
+			set := map[string]string{}
 			for _, n := range strings.Split(parts[2], ",") {
 				if n != "" {
-					set[n] = true
+					set[n] = w.relayers[as].Acc.String()
 				}
 			}
 			c.registry[w.relayers[r].Acc.String()] = set
+			if as != r {
+				w.rec.Probe("gov.registry_alias")
+			}
 			w.rec.Probe("gov.registry_changed")
 		}
 	}
